@@ -315,8 +315,40 @@ func init() {
 	})
 
 	reg("C13", "C13.5", "T1", "GET /alerts drops exactly the alerts whose end is set and before now; only resolved alerts are garbage collected", func(o *Ob) {
-		e := o.E
-		af := o.Fn("(*am/api/v2.API).alertFilter$1")
+		for _, af := range alertFilterClosures(o) {
+			endedAlertsDropped(o, af)
+		}
+		gcAlertsRule(o)
+		o.MinSites(2)
+	})
+}
+
+// alertFilterClosures: every function alertFilter can hand out (each is used as the alert predicate of a GET).
+func alertFilterClosures(o *Ob) []*ssa.Function {
+	e := o.E
+	mk := o.Fn("(*am/api/v2.API).alertFilter")
+	var out []*ssa.Function
+	seen := map[*ssa.Function]bool{}
+	for _, ret := range (&Walk{Fn: mk}).FromEntry().Returns() {
+		for _, a := range AltsOf(ret.Results[0]) {
+			f := e.FuncValue(a.V)
+			if !o.Check(f != nil, "filter-closure", "a predicate returned by alertFilter cannot be resolved", ret) {
+				continue
+			}
+			if !seen[f] {
+				seen[f] = true
+				out = append(out, f)
+			}
+		}
+	}
+	o.Check(len(out) >= 1, "filter-closures", "alertFilter returns no predicate", fnFirst(mk))
+	return out
+}
+
+// endedAlertsDropped: the predicate af drops exactly the alerts whose end is set and before now.
+func endedAlertsDropped(o *Ob, af *ssa.Function) {
+	e := o.E
+	{
 		ended := L("(p0.Alert.EndsAt <t p1)", true)
 		hasEnd := L("(time.Time).IsZero(p0.Alert.EndsAt)", false)
 		// an end that is set and has passed ⇒ dropped, in whichever order the two tests are made
@@ -350,8 +382,117 @@ func init() {
 			}
 			o.Check(kept, "live-dropped", cs.name+" is never returned", fnFirst(af))
 		}
-		// a not-ended alert is not dropped by the time test: under ¬ended the first false must be guarded by something else
-		gcAlertsRule(o)
-		o.MinSites(2)
+	}
+}
+
+// alertConversionRule: what is stored is what was posted and what is returned is what is stored, field by field.  The
+// two conversions between the API model and the internal alert copy every field from the field of the same meaning
+// (start ↔ start, end ↔ end, labels ↔ labels, annotations ↔ annotations, generator URL), one result per input, and
+// the label-set conversions copy every pair, key from key and value from value.
+func alertConversionRule(o *Ob) {
+	e := o.E
+	resolve := func(fn *ssa.Function, v ssa.Value) string {
+		if a, ok := v.(*ssa.Alloc); ok {
+			if sv := singleStore(a); sv != nil {
+				return e.X(fn, sv)
+			}
+		}
+		return e.X(fn, v)
+	}
+	in := o.Fn("am/api/v2.OpenAPIAlertsToAlerts")
+	o.Site(fnFirst(in), "posted alert → stored alert")
+	for f, want := range map[string]string{
+		"Labels":       `am/api/v2\.APILabelSetToModelLabelSet\(p1\[i\](\.Alert)?\.Labels\)`,
+		"Annotations":  `am/api/v2\.APILabelSetToModelLabelSet\(p1\[i\](\.Alert)?\.Annotations\)`,
+		"StartsAt":     `(conv:time\.Time\()?p1\[i\](\.Alert)?\.StartsAt\)?`,
+		"EndsAt":       `(conv:time\.Time\()?p1\[i\](\.Alert)?\.EndsAt\)?`,
+		"GeneratorURL": `(conv:string\()?p1\[i\](\.Alert)?\.GeneratorURL\)?`,
+	} {
+		sts := e.StoresToField(in, "github.com/prometheus/common/model.Alert", f)
+		if !o.Check(len(sts) == 1, "in-field|"+f, "the stored alert's "+f+" must be set from the posted alert", fnFirst(in)) {
+			continue
+		}
+		v := resolve(in, sts[0].Val)
+		o.Check(regexpMatch(want, v), "in-value|"+f, "the stored alert's "+f+" must be the posted alert's "+f+", is "+clip(v), sts[0])
+	}
+	{
+		var app ssa.Instruction
+		for _, ret := range (&Walk{Fn: in}).FromEntry().Returns() {
+			_, parts := e.AppendParts(ret.Results[0])
+			for _, p := range parts {
+				if strings.HasPrefix(e.X(in, p.V), "&complit:am/alert.Alert") && p.Call != nil {
+					app = p.Call
+				}
+			}
+			idx := indexFilled(e, in, ret.Results[0])
+			if app == nil && idx != nil {
+				app = idx
+			}
+		}
+		if o.Check(app != nil, "in-collect", "the converted alerts are not collected into the result", fnFirst(in)) {
+			if l := e.LoopOf(app); o.Check(l != nil, "in-loop", "posted alerts must be converted in a loop", app) {
+				o.Check(e.CoversAll(l, "p1") && len(e.EarlyExits(l)) == 0 && !loopBackWithout(o, l, IsInstr(app), nil), "in-all", "a posted alert can be dropped by the conversion", app)
+			}
+		}
+	}
+	out := o.Fn("am/api/v2.AlertToOpenAPIAlert")
+	o.Site(fnFirst(out), "stored alert → reported alert")
+	for _, c := range []struct{ typ, f, want string }{
+		{"am/api/v2/models.GettableAlert", "StartsAt", `(conv:\S+\()?p0(\.Alert)?\.StartsAt\)?`},
+		{"am/api/v2/models.GettableAlert", "EndsAt", `(conv:\S+\()?p0(\.Alert)?\.EndsAt\)?`},
+		{"am/api/v2/models.GettableAlert", "UpdatedAt", `(conv:\S+\()?p0\.UpdatedAt\)?`},
+		{"am/api/v2/models.GettableAlert", "Annotations", `am/api/v2\.ModelLabelSetToAPILabelSet\(p0(\.Alert)?\.Annotations\)`},
+		{"am/api/v2/models.GettableAlert", "Fingerprint", `\(model\.Fingerprint\)\.String\(\(\*model\.Alert\)\.Fingerprint\(p0(\.Alert)?\)\)`},
+		{"am/api/v2/models.Alert", "Labels", `am/api/v2\.ModelLabelSetToAPILabelSet\(p0(\.Alert)?\.Labels\)`},
+		{"am/api/v2/models.Alert", "GeneratorURL", `(conv:\S+\()?p0(\.Alert)?\.GeneratorURL\)?`},
+	} {
+		sts := e.StoresToField(out, c.typ, c.f)
+		if !o.Check(len(sts) >= 1, "out-field|"+c.f, "the reported alert's "+c.f+" must be set from the stored alert", fnFirst(out)) {
+			continue
+		}
+		for _, st := range sts {
+			v := resolve(out, st.Val)
+			o.Check(regexpMatch(c.want, v), "out-value|"+c.f, "the reported alert's "+c.f+" must be the stored alert's "+c.f+", is "+clip(v), st)
+		}
+	}
+	for _, n := range []string{"am/api/v2.APILabelSetToModelLabelSet", "am/api/v2.ModelLabelSetToAPILabelSet"} {
+		fn := o.Fn(n)
+		k := 0
+		for _, i := range AllInstrs(fn) {
+			mu, ok := i.(*ssa.MapUpdate)
+			if !ok {
+				continue
+			}
+			k++
+			o.Site(mu, n)
+			o.Check(regexpMatch(`(conv:\S+\()?next\(range\(p0\)\)#1\)?`, e.X(fn, mu.Key)) && regexpMatch(`(conv:\S+\()?next\(range\(p0\)\)#2\)?`, e.X(fn, mu.Value)), "labels-pair|"+n, "each pair must be copied key to key and value to value, copies "+e.X(fn, mu.Key)+" ↦ "+e.X(fn, mu.Value), mu)
+			if l := e.LoopOf(mu); o.Check(l != nil, "labels-loop|"+n, "pairs must be copied in a loop", mu) {
+				o.Check(e.CoversAll(l, "p0") && len(e.EarlyExits(l)) == 0 && !loopBackWithout(o, l, IsInstr(mu), nil), "labels-all|"+n, "a label can be dropped by the conversion", mu)
+			}
+			for _, ret := range (&Walk{Fn: fn}).FromEntry().Returns() {
+				o.Check(e.X(fn, ret.Results[0]) == e.X(fn, mu.Map), "labels-result|"+n, "the converted set must be returned", ret)
+			}
+		}
+		o.Check(k == 1, "labels-copy|"+n, n+" must copy the pairs in one place", fnFirst(fn))
+	}
+}
+
+// indexFilled: the slice v is filled by "v[i] = x" stores; returns one such store.
+func indexFilled(e *Eng, fn *ssa.Function, v ssa.Value) ssa.Instruction {
+	vx := e.X(fn, v)
+	for _, in := range AllInstrs(fn) {
+		if st, ok := in.(*ssa.Store); ok {
+			if ia, ok := st.Addr.(*ssa.IndexAddr); ok && e.X(fn, ia.X) == vx {
+				return st
+			}
+		}
+	}
+	return nil
+}
+
+func init() {
+	reg("C13", "C13.9", "T8,T11", "conversions are field-faithful: posted → stored and stored → reported copy start, end, updated, labels, annotations, generator URL and fingerprint from the field of the same meaning, one result per input; label sets are copied pair by pair", func(o *Ob) {
+		alertConversionRule(o)
+		o.MinSites(4)
 	})
 }
